@@ -1309,3 +1309,91 @@ func rRegexChoice(id string) func(w *World, r *Report) {
 		}
 	}
 }
+
+// rNoTokenDropped (R04.13 / R03.20 / R09.12): the parser ends a successful real parse only with nothing left in the
+// iterator: through the exhausted edge of the loop-head Next(), or after a bulk copy of the tail. A jump out of the main
+// loop from anywhere else (`break ARGS_LOOP` where `break` was meant) would drop the rest of the command line - the
+// terminator and everything behind it included - from remaining.
+func rNoTokenDropped(id string) func(w *World, r *Report) {
+	return func(w *World, r *Report) {
+		ru := r.Rule(id, "no token is dropped: every path of a real parse to a return without error passes an exhausted edge of Next() (the loop head's, or the one behind the terminator) or a bulk copy of the tail", 1)
+		m := parserOrFail(w, ru)
+		if m == nil {
+			return
+		}
+		if m.mainNextIf == nil {
+			ru.Undecided("loop-head", w.Pos(m.fn.Pos()), "loop-head Next() test not found")
+			return
+		}
+		cache := map[*ssa.Function]*helperSum{}
+		bulk := map[ssa.Instruction]bool{}
+		for _, e := range m.effects() {
+			if e.Kind == effHelper {
+				if _, ex := m.basicDisposition(e.Instr, cache); ex {
+					bulk[e.Instr] = true
+				}
+			}
+		}
+		// Next() answered false: nothing is left (Next is absorbing, C03 R03.6)
+		exhausted := func(term ssa.Instruction, k int) bool {
+			iff, ok := term.(*ssa.If)
+			if !ok || k != 1 {
+				return false
+			}
+			c, ok := iff.Cond.(*ssa.Call)
+			return ok && m.iterCall(c, nIterNext)
+		}
+		seen, _ := m.ig.reachVSInit([]int{0}, func(in ssa.Instruction) bool { return bulk[in] }, func(term ssa.Instruction, k int) bool {
+			if !m.normalEdgeOK(term, k) {
+				return false
+			}
+			return !exhausted(term, k)
+		}, nil)
+		if seen == nil {
+			seen = m.ig.reachFromE([]int{0}, func(in ssa.Instruction) bool { return bulk[in] }, func(term ssa.Instruction, k int) bool {
+				return m.normalEdgeOK(term, k) && !exhausted(term, k)
+			})
+		}
+		n := 0
+		for i, s := range seen {
+			ret, ok := m.ig.instrs[i].(*ssa.Return)
+			if !ok || !s || len(ret.Results) == 0 {
+				continue
+			}
+			last := ret.Results[len(ret.Results)-1]
+			if !isNilConst(last) && !types.Identical(last.Type(), types.Universe.Lookup("error").Type()) {
+				continue
+			}
+			if !isNilConst(last) {
+				nonNil := surelyNonNil(last)
+				for _, f := range factsAt(ret.Block()) {
+					if f.Op == token.NEQ && f.Y != nil && f.X == last && isNilConst(f.Y) {
+						nonNil = true
+					}
+				}
+				if nonNil {
+					continue
+				}
+			}
+			n++
+			ru.Bad("main-loop/left-with-tokens", w.IPos(ret), "the parser can return without error while tokens are left in the iterator (the main loop is left from inside an iteration without a bulk copy of the tail): the rest of the command line disappears from remaining")
+		}
+		if n == 0 {
+			ru.OK("main-loop/left-with-tokens", w.IPos(m.mainNextIf), "successful returns only after the iterator was exhausted or the tail copied")
+		}
+	}
+}
+
+func init() {
+	for prop, id := range map[string]string{"C04": "R04.13", "C03": "R03.20", "C09": "R09.12"} {
+		addRules(prop, rNoTokenDropped(id))
+	}
+}
+
+func init() {
+	addRules("C04", func(w *World, r *Report) {
+		subRule(w, r, rC07Bundling, "R04.14", "an option whose value is attached never reaches for the next token - which may be `--`: the bundled form keeps its attached value (same obligations as C07 R07.4)", 3)
+	}, func(w *World, r *Report) {
+		subRule(w, r, rC07SingleDash, "R04.15", "an option whose value is glued to it never reaches for the next token - which may be `--`: single-dash mode leaves the value out only when nothing follows the first rune (same obligations as C07 R07.5)", 3)
+	})
+}
